@@ -1,5 +1,5 @@
 CONSTANTS MaxView = 2 ByzBudget = 6 Blocks <- cBlocks Hdr <- cHdr Dev = {} Ablate = {}
 INIT Init
 NEXT Next
-INVARIANTS Agreement ExternalValidity NoRejectedCommitted NoEquivocation HigherViewOnlyByCertificate
+INVARIANTS Agreement LockedNodeLevel ExternalValidity NoRejectedCommitted NoEquivocation HigherViewOnlyByCertificate
 CHECK_DEADLOCK FALSE
